@@ -200,6 +200,27 @@ func genUpgradeHistory(e *Env, r *Rng, idx int) {
 	proofClient, _ := b.QueryUpgradeProof(upgradetypes.UpgradedClientKey(lastH), uint64(lastH))
 	proofCons, _ := b.QueryUpgradeProof(upgradetypes.UpgradedConsStateKey(lastH), uint64(lastH))
 
+	// a consumer with a REAL proof: the committed upgraded client is a member of B's upgrade store at the client's
+	// latest height; it verifies while the client is Active and must stop verifying once it is not
+	realVM := func() {
+		cur := e.clientState(cid)
+		if cur == nil {
+			return
+		}
+		pr, _ := b.QueryUpgradeProof(upgradetypes.UpgradedClientKey(lastH), uint64(lastH))
+		var mp commitmenttypes.MerkleProof
+		ok := false
+		if err := e.Cdc.Unmarshal(pr, &mp); err == nil {
+			if cons, found := ibctm.GetConsensusState(e.Store(cid), e.Cdc, mkH(brev, uint64(lastH))); found {
+				path := commitmenttypes.NewMerklePath([]byte("upgrade"), upgradetypes.UpgradedClientKey(lastH))
+				ok = mp.VerifyMembership(cur.ProofSpecs, cons.GetRoot(), path, committedBz) == nil
+			}
+		}
+		e.Do(M{"f": "vm", "cid": cid, "height": hs(mkH(brev, uint64(lastH))), "delayT": "0", "delayB": "0", "rawProof": Hex(pr),
+			"store": "upgrade", "key": string(upgradetypes.UpgradedClientKey(lastH)), "value": Hex(committedBz), "proofParse": true, "proofOK": ok})
+	}
+	realVM()
+
 	clientBz, _ := upClient.Marshal() // the relayer passes the upgraded client with its own custom fields
 	consBz, _ := upCons.Marshal()
 
@@ -211,6 +232,7 @@ func genUpgradeHistory(e *Env, r *Rng, idx int) {
 		// freeze through a misbehaviour signed by B's validators is not available (keys are the chain's); expire instead
 		e.makeStatus(r, mysim, cid, 2)
 	}
+	realVM()
 	// mutations of the request
 	switch r.Intn(28) {
 	case 0:
